@@ -29,7 +29,7 @@
   "Last reported value" is the object-level one (DESIGN.md §7 C16): any notification about
   the object moves it.
 -/
-import BacVerif.Lemmas.CovOut
+import BacVerif.Lemmas.CovPersist
 namespace BacVerif.C16
 open BacVerif.Cov
 
@@ -158,10 +158,6 @@ theorem sub_unique {s : State} (h : Inv s) : ((activeList s).map key3).Nodup :=
   nodup_rows s.objs h
 
 /-! ## no notification for a dead subscription -/
-
-/-- a record that is listed -/
-def Listed (s : State) (o : Nat) (c : Sub) : Prop :=
-  ∃ ob ∈ s.objs, ob.id = o ∧ ∃ d, ob.det = some d ∧ c ∈ d.subs
 
 /-- between events, no listed subscription has passed its deadline: every lifetime that has
     elapsed has been processed (and `timed ⇔ armed`) -/
@@ -898,5 +894,268 @@ example : (match findObj exS 0 with
              (match findSub d.subs 1 7 with | some cov => cov.lifetime == 60 | none => false)
          | none => false)
     | none => false) = true := by decide +kernel
+
+/-! ## a subscription stays listed exactly until it is cancelled, replaced or due
+    (the list refines the abstract map key ↦ (confirmed, deadline)) -/
+
+theorem fireAll_covers {now' : Nat} : ∀ (l : List Task) {s : State}, InvAt now' s → s.now = now' →
+    Covers s (fireAll s l).1
+  | [], s, _, _ => Covers.refl s
+  | k :: rest, s, hi, hnow => by
+    simp only [fireAll]
+    split
+    · rename_i hc
+      have hk : k ∈ armedTasks s := by simpa using hc
+      obtain ⟨h1, h2, _, _, _⟩ := fireTask_spec hi hnow hk
+      have hq := quiet_run h1
+      exact ((fireTask_covers hi hk).trans hq.covers).trans
+        (fireAll_covers rest (hq.invAt h1) (by rw [hq.now, h2]))
+    · exact fireAll_covers rest hi hnow
+
+/-- time: after a sleep of the run loop the listed records are EXACTLY those listed before
+    whose deadline is still ahead (indefinite ones stay) — nothing else is dropped, nothing
+    whose lifetime has elapsed is kept -/
+theorem step_listed_iff {s : State} (h : Inv s) (dt : Nat) (o : Nat) (c : Sub) :
+    Listed (step s dt).1 o c ↔
+      Listed s o c ∧ (c.due = none ∨ ∃ t q, c.due = some (t, q) ∧ (step s dt).1.now < t) := by
+  have hinv' := inv_step h dt
+  have hq := quiet_run h
+  have h0 : Inv (run s).1 := by
+    have := hq.invAt h
+    unfold Cov.Inv; rw [hq.now]; exact this
+  have hw := advance_weak h0 dt
+  have hmem : ∀ k ∈ sortTasks ((armedTasks (advance (run s).1 dt)).filter
+      (fun k => k.t ≤ (advance (run s).1 dt).now)), k.t ≤ (advance (run s).1 dt).now := by
+    intro k hk
+    rw [mem_sortTasks, List.mem_filter] at hk
+    simpa using hk.2
+  have hspec := fireAll_spec (now' := (advance (run s).1 dt).now)
+    (sortTasks ((armedTasks (advance (run s).1 dt)).filter (fun k => k.t ≤ (advance (run s).1 dt).now)))
+    hw rfl (by
+      intro k hk hle
+      rw [mem_sortTasks, List.mem_filter]
+      exact ⟨hk, by simpa using hle⟩)
+  have hnow : (step s dt).1.now = (advance (run s).1 dt).now := hspec.2
+  constructor
+  · intro hl
+    have hcov : Covers s (step s dt).1 :=
+      (hq.covers.trans (Covers.refl (advance (run s).1 dt))).trans (fireAll_covers _ hw rfl)
+    refine ⟨hcov.listed hl, ?_⟩
+    rcases listed_alive hinv' hl with ⟨_, hn⟩ | ⟨_, t, q, hd, hlt⟩
+    · exact Or.inl hn
+    · exact Or.inr ⟨t, q, hd, hlt⟩
+  · rintro ⟨hl, halive⟩
+    rw [hnow] at halive
+    have hl1 : Listed (advance (run s).1 dt) o c := hq.listed hl
+    exact fireAll_persists halive _ hw rfl hmem hl1
+
+/-- draining the deferred functions never changes who is listed -/
+theorem run_listed_iff {s : State} (h : Inv s) (o : Nat) (c : Sub) :
+    Listed (run s).1 o c ↔ Listed s o c :=
+  ⟨(quiet_run h).covers.listed, (quiet_run h).listed⟩
+
+/-- SubscribeCOV leaves every record of another key listed, untouched -/
+theorem subscribe_keeps_others {s : State} (h : Inv s) (a p o : Nat) (conf : Option Bool) (life : Option Nat)
+    {o' : Nat} {c' : Sub} (hl : Listed s o' c') (hother : ¬ (o' = o ∧ c'.addr = a ∧ c'.pid = p)) :
+    Listed (subscribe s a p o conf life).1 o' c' := by
+  unfold subscribe
+  simp only
+  split
+  · exact hl
+  · rename_i ob hfind
+    have hob := (findObj_mem hfind).1
+    have huniq := uniq_of_find h hfind
+    split
+    · exact hl
+    · split
+      · exact hl
+      · rename_i d ng hget
+        obtain ⟨hdok, _⟩ := getDet_ok h hob hget
+        -- the records listed for `ob` are those of `d`
+        have hsubs : subsOf ob.det = d.subs := by
+          unfold getDet at hget
+          split at hget
+          · rename_i d0 hd0
+            cases hget; rw [hd0]; rfl
+          · rename_i hd0
+            split at hget
+            · cases hget
+            · cases hget; rw [hd0]; rfl
+        split
+        · rename_i cov hcov
+          obtain ⟨hcm, hca, hcp⟩ := findSub_some hcov
+          -- c' is not the record of the key
+          have hne : ∀ x ∈ s.objs, x.id = o' → c' ∈ subsOf x.det → x.id = o → c'.sid ≠ cov.sid := by
+            intro x hx hxo' hm hxo e
+            cases huniq x hx hxo
+            rw [hsubs] at hm
+            have := sid_inj_of_nodup hdok.sids hm hcm e
+            subst this
+            exact hother ⟨hxo'.symm.trans hxo, hca, hcp⟩
+          split
+          · refine listed_map (s' := { setObj s o _ with nextGen := ng }) rfl ?_ ?_ hl
+            · intro x _; split <;> rfl
+            · intro x hx hxo' hm
+              by_cases hxo : x.id = o
+              · have hb : (x.id == o) = true := by simpa using hxo
+                simp only [hb, if_true]
+                have hsne := hne x hx hxo' hm hxo
+                cases huniq x hx hxo
+                rw [hsubs] at hm
+                have hmem : c' ∈ removeSid d.subs cov.sid := by
+                  simp only [removeSid, List.mem_filter, bne_iff_ne, ne_eq]
+                  exact ⟨hm, hsne⟩
+                split
+                · rename_i he
+                  have : removeSid d.subs cov.sid = [] := by simpa using he
+                  rw [this] at hmem; cases hmem
+                · exact hmem
+              · have hb : (x.id == o) = false := by simpa using hxo
+                simp only [hb, Bool.false_eq_true, if_false]
+                exact hm
+          · generalize armLifetime s (life.getD 0) = r
+            obtain ⟨due, seq⟩ := r
+            simp only
+            refine listed_map (s' := { setObj s o _ with nextGen := ng, seq := seq, deferred := _ }) rfl ?_ ?_ hl
+            · intro x _; split <;> rfl
+            · intro x hx hxo' hm
+              by_cases hxo : x.id = o
+              · have hb : (x.id == o) = true := by simpa using hxo
+                simp only [hb, if_true]
+                have hsne := hne x hx hxo' hm hxo
+                cases huniq x hx hxo
+                rw [hsubs] at hm
+                simp only [subsOf, renewSubs, List.mem_map]
+                refine ⟨c', hm, ?_⟩
+                have hb2 : (c'.sid == cov.sid) = false := by simpa using hsne
+                simp [hb2]
+              · have hb : (x.id == o) = false := by simpa using hxo
+                simp only [hb, Bool.false_eq_true, if_false]
+                exact hm
+        · split
+          · refine listed_map (s' := { setObj s o _ with nextGen := ng }) rfl ?_ ?_ hl
+            · intro x _; split <;> rfl
+            · intro x hx hxo' hm
+              by_cases hxo : x.id = o
+              · have hb : (x.id == o) = true := by simpa using hxo
+                simp only [hb, if_true]
+                cases huniq x hx hxo
+                rw [hsubs] at hm
+                exact hm
+              · have hb : (x.id == o) = false := by simpa using hxo
+                simp only [hb, Bool.false_eq_true, if_false]
+                exact hm
+          · generalize armLifetime s (life.getD 0) = r
+            obtain ⟨due, seq⟩ := r
+            simp only
+            split
+            all_goals
+              simp only
+              refine listed_map (s' := { setObj s o _ with nextGen := ng, seq := _, nextSid := _, deferred := _ })
+                rfl ?_ ?_ hl
+              · intro x _; split <;> rfl
+              · intro x hx hxo' hm
+                by_cases hxo : x.id = o
+                · have hb : (x.id == o) = true := by simpa using hxo
+                  simp only [hb, if_true]
+                  cases huniq x hx hxo
+                  rw [hsubs] at hm
+                  simp only [subsOf, List.mem_append]
+                  exact Or.inl hm
+                · have hb : (x.id == o) = false := by simpa using hxo
+                  simp only [hb, Bool.false_eq_true, if_false]
+                  exact hm
+
+theorem listed_map_iff {s s' : State} {g : Obj → Obj} (he : s'.objs = s.objs.map g)
+    (hid : ∀ ob ∈ s.objs, (g ob).id = ob.id)
+    (hsubs : ∀ ob ∈ s.objs, subsOf (g ob).det = subsOf ob.det) (o : Nat) (c : Sub) :
+    Listed s' o c ↔ Listed s o c := by
+  rw [listed_iff, listed_iff, he]
+  constructor
+  · rintro ⟨ob', hob', hido, hc⟩
+    obtain ⟨ob, hob, rfl⟩ := List.mem_map.mp hob'
+    exact ⟨ob, hob, (hid ob hob).symm.trans hido, (hsubs ob hob) ▸ hc⟩
+  · rintro ⟨ob, hob, hido, hc⟩
+    exact ⟨g ob, List.mem_map_of_mem hob, (hid ob hob).trans hido, (hsubs ob hob).symm ▸ hc⟩
+
+theorem applyChange_listed_iff {lo : Nat} {s : State} {o : Nat} {ob0 : Obj} (h : InvAt lo s)
+    (hfind : findObj s o = some ob0) (upd : Obj → Obj)
+    (hid : ∀ x, (upd x).id = x.id) (hdet : ∀ x, (upd x).det = x.det)
+    (r : Option (Det × Bool))
+    (hr : ∀ d' e, r = some (d', e) → ∃ d, ob0.det = some d ∧ SameCore d d') (o' : Nat) (c : Sub) :
+    Listed (applyChange s o upd r) o' c ↔ Listed s o' c := by
+  have huniq := uniq_of_find h hfind
+  unfold applyChange
+  cases r with
+  | none =>
+    refine listed_map_iff (s' := setObj s o upd) rfl ?_ ?_ o' c
+    · intro x _; split
+      · exact hid x
+      · rfl
+    · intro x _; split
+      · rw [hdet]
+      · rfl
+  | some pr =>
+    obtain ⟨d', e⟩ := pr
+    obtain ⟨d, hd, hsc⟩ := hr d' e rfl
+    refine listed_map_iff (s' := { setObj s o _ with deferred := _ }) rfl ?_ ?_ o' c
+    · intro x _; split
+      · exact hid x
+      · rfl
+    · intro x hx
+      by_cases hxo : x.id = o
+      · have hb : (x.id == o) = true := by simpa using hxo
+        simp only [hb, if_true]
+        cases huniq x hx hxo
+        rw [hd]
+        simp only [subsOf]
+        exact hsc.1
+      · have hb : (x.id == o) = false := by simpa using hxo
+        simp only [hb, Bool.false_eq_true, if_false]
+
+/-- property writes never change who is listed -/
+theorem write_listed_iff {s : State} (h : Inv s) (o : Nat) (v : Int) (f : Nat) (o' : Nat) (c : Sub) :
+    (Listed (writePv s o v) o' c ↔ Listed s o' c) ∧ (Listed (writeFlags s o f) o' c ↔ Listed s o' c) ∧
+    (Listed (writeInc s o v) o' c ↔ Listed s o' c) := by
+  refine ⟨?_, ?_, ?_⟩
+  · unfold writePv
+    split
+    · exact Iff.rfl
+    · rename_i ob hfind
+      refine applyChange_listed_iff h hfind _ (by intro _; rfl) (by intro _; rfl) _ ?_ o' c
+      intro d' e hr
+      split at hr
+      · rename_i d cr hd _
+        simp only [Option.some.injEq] at hr
+        have hsc := sameCore_pvChange ob cr d v
+        rw [hr] at hsc
+        exact ⟨d, hd, hsc⟩
+      · cases hr
+  · unfold writeFlags
+    split
+    · exact Iff.rfl
+    · rename_i ob hfind
+      refine applyChange_listed_iff h hfind _ (by intro _; rfl) (by intro _; rfl) _ ?_ o' c
+      intro d' e hr
+      split at hr
+      · rename_i d cr hd _
+        simp only [Option.some.injEq] at hr
+        have hsc := sameCore_flagsChange ob cr d f
+        rw [hr] at hsc
+        exact ⟨d, hd, hsc⟩
+      · cases hr
+  · unfold writeInc
+    split
+    · exact Iff.rfl
+    · rename_i ob hfind
+      refine applyChange_listed_iff h hfind _ (by intro _; rfl) (by intro _; rfl) _ ?_ o' c
+      intro d' e hr
+      split at hr
+      · rename_i d cr hd _
+        simp only [Option.some.injEq] at hr
+        have hsc := sameCore_incChange ob cr d v
+        rw [hr] at hsc
+        exact ⟨d, hd, hsc⟩
+      · cases hr
 
 end BacVerif.C16
